@@ -124,10 +124,17 @@ func (c *FenceConn) BeginTx(ctx context.Context, opts driver.TxOptions) (driver.
 
 	fenceTx, err := c.TargetDB.BeginTx(ctx, &sql.TxOptions{})
 	if err != nil {
+		tm.SetFenceTxBeginedFlag(ctx, false)
+		if rerr := tx.Rollback(); rerr != nil {
+			log.Error(rerr)
+		}
 		return nil, err
 	}
 	defer func() {
 		if err != nil {
+			// the fence refused the phase (or failed): neither transaction may stay open, the fence
+			// transaction holds the lock on the fence record of this branch
+			tm.SetFenceTxBeginedFlag(ctx, false)
 			if err := fenceTx.Rollback(); err != nil {
 				log.Error(err)
 			}
@@ -144,7 +151,8 @@ func (c *FenceConn) BeginTx(ctx context.Context, opts driver.TxOptions) (driver.
 		return nil
 	}
 
-	if err := WithFence(ctx, fenceTx, emptyCallback); err != nil {
+	// (assigned to the outer err: the deferred clean-up above looks at it)
+	if err = WithFence(ctx, fenceTx, emptyCallback); err != nil {
 		return nil, err
 	}
 
